@@ -155,9 +155,11 @@ namespace chaiscript {
 
   template<typename T>
   [[nodiscard]] auto parse_num(const std::string_view t_str) -> typename std::enable_if<!std::is_integral<T>::value, T>::type {
-    T t = 0;
-    T base{};
-    T decimal_place = 0;
+    // accumulate in the widest type and round once at the end: in T itself '3.4028234e38f' (FLT_MAX) becomes inf
+    using Acc = long double;
+    Acc t = 0;
+    Acc base{};
+    Acc decimal_place = 0;
     int exponent = 0;
 
     for (const auto c : t_str) {
@@ -189,9 +191,9 @@ namespace chaiscript {
         case '9':
           if (decimal_place < 10) {
             t *= 10;
-            t += static_cast<T>(c - '0');
+            t += static_cast<Acc>(c - '0');
           } else {
-            t += static_cast<T>(c - '0') / decimal_place;
+            t += static_cast<Acc>(c - '0') / decimal_place;
             decimal_place *= 10;
           }
           break;
@@ -199,7 +201,7 @@ namespace chaiscript {
           break;
       }
     }
-    return exponent ? base * std::pow(T(10), t * static_cast<T>(exponent)) : t;
+    return static_cast<T>(exponent ? base * std::pow(Acc(10), t * static_cast<Acc>(exponent)) : t);
   }
 
   struct str_equal {
